@@ -8,12 +8,24 @@ package main
 // agree with ReadFileMetadata, the write-side model must predict the metadata
 // from what the harness knows (rows ingested, observed compressed / section
 // sizes), and the truthfulness predicate is evaluated on the bytes.
+//
+// The read helpers are judged as a caller uses them: every block's row data and
+// filters are read first and *retained* while the other blocks are read and while
+// unrelated pooled scans draw and fill buffers of the same size classes; only then
+// are the retained rows compared, byte for byte, with an independent decode of the
+// file and with the rows ingested, and the retained filters with filters rebuilt
+// from the rows. A share of the scenarios runs every engine (writers and merger)
+// with strings.Fields as tokenizer -- its tokens are substrings of the value, i.e.
+// views into whatever buffer the merge read a block into -- and a "retaining" profile
+// combines that with uncompressed row data (decoded rows are then the read buffer
+// itself) and merges that rebuild several blocks per partition.
 
 import (
 	"bytes"
 	"context"
-	"fmt"
 	"encoding/json"
+	"fmt"
+	"strings"
 
 	bs "github.com/danthegoodman1/bloomsearch"
 )
@@ -22,11 +34,13 @@ func init() { register("c17", []string{"C17"}, runC17) }
 
 func runC17(c *Ctx) {
 	c.rep.Rule = "engine-written files from random configurations (compression none/snappy/zstd with levels, 0-4 partitions, row-group and buffer limits, " +
-		"three false positive rates, optional minmax key) after random ingest/flush histories and 0-2 merges run by an engine with different limits; " +
-		"every file referenced by the MetaStore is one case. Non-trivial: every case (a file with >= 1 block); distinct by file bytes."
+		"three false positive rates, optional minmax key, default tokenizer or strings.Fields whose tokens are views into the value) after random ingest/flush histories " +
+		"and 0-2 merges run by an engine with different limits; every fourth scenario is the retaining profile (uncompressed row data, strings.Fields, 1-2 partitions, " +
+		"merges that rebuild several blocks per partition); every file referenced by the MetaStore is one case, read through the public helpers with all results retained " +
+		"across the other reads and across unrelated pooled scans of the same size classes. Non-trivial: every case (a file with >= 1 block); distinct by file bytes."
 	sh := c.newShard("t17", runnerT, "caseT", "mismatches", "violations")
 	sh.limit = 6
-	nScen := c.pick(11, 220)
+	nScen := c.pick(12, 220)
 	for s := 0; s < nScen; s++ {
 		c17Scenario(c, sh, s)
 	}
@@ -35,7 +49,24 @@ func runC17(c *Ctx) {
 func c17Scenario(c *Ctx, sh *shard, scen int) {
 	ctx := context.Background()
 	tc := c.tGenConfig()
+	retaining := scen%4 == 3
+	var walkTok func(string) []string
+	if retaining {
+		tc.cfg.RowDataCompression = bs.CompressionNone
+		if tc.partitions > 2 {
+			tc.partitions = 1 + c.intn(2)
+		}
+		tc.desc += fmt.Sprintf(" [retaining profile: comp=none parts=%d]", tc.partitions)
+	}
+	if retaining || c.chance(0.3) {
+		tc.cfg.Tokenizer = strings.Fields
+		walkTok = strings.Fields
+		tc.desc += " tokenizer=strings.Fields"
+	}
+	c.dist("c17_tokenizer", map[bool]string{true: "strings.Fields (substring views)", false: "default"}[walkTok != nil])
+	c.dist("c17_profile", map[bool]string{true: "retaining", false: "random"}[retaining])
 	w := c.tNewWorld(tc)
+	w.walkTok = walkTok
 	defer w.stop()
 	nextID := 0
 	gen := func(n int) []map[string]any {
@@ -61,6 +92,9 @@ func c17Scenario(c *Ctx, sh *shard, scen int) {
 	emitNew("flush", tc.desc)
 
 	rounds := c.intn(3)
+	if retaining {
+		rounds = 1 + c.intn(2)
+	}
 	for r := 0; r < rounds; r++ {
 		if r > 0 || c.chance(0.3) {
 			c.tIngest(w, gen(4+c.intn(16)))
@@ -71,6 +105,10 @@ func c17Scenario(c *Ctx, sh *shard, scen int) {
 		cfg2.MaxRowGroupBytes = tc.cfg.MaxRowGroupBytes * (1 + c.intn(4))
 		if c.chance(0.5) {
 			cfg2.RowDataCompression = []bs.CompressionType{bs.CompressionNone, bs.CompressionSnappy, bs.CompressionZstd}[c.intn(3)]
+		}
+		if retaining {
+			cfg2.MaxRowGroupRows = tc.cfg.MaxRowGroupRows * 4
+			cfg2.MaxRowGroupBytes = tc.cfg.MaxRowGroupBytes * 4
 		}
 		if c.chance(0.3) {
 			cfg2.BloomFalsePositiveRate = []float64{0.001, 0.01, 0.2}[c.intn(3)]
@@ -166,6 +204,37 @@ func c17File(c *Ctx, sh *shard, w *tWorld, f tFile, kind string, scen int, cfgDe
 	for i := range md.DataBlocks {
 		roff += md.DataBlocks[i].RowDataSize
 	}
+	// a caller that keeps what the helpers return: every block's rows, then every block's filters,
+	// then pooled scans that have nothing to do with this caller (same size classes, other content)
+	heldRows := make([][]byte, len(md.DataBlocks))
+	heldFilters := make([]*bs.BloomFilters, len(md.DataBlocks))
+	for i := range md.DataBlocks {
+		b := md.DataBlocks[i]
+		rd, err := bs.ReadDataBlockRowData(newProbe(data), &b)
+		if err != nil {
+			fail(fmt.Sprintf("block %d: ReadDataBlockRowData: %v", i, err))
+			return
+		}
+		heldRows[i] = rd
+	}
+	for i := range md.DataBlocks {
+		bf, err := bs.ReadDataBlockBloomFilters(newProbe(data), md.DataBlocks[i])
+		if err != nil {
+			fail(fmt.Sprintf("block %d: ReadDataBlockBloomFilters: %v", i, err))
+			return
+		}
+		heldFilters[i] = bf
+	}
+	for i := range md.DataBlocks {
+		for _, size := range []int{md.DataBlocks[i].RowDataSize, md.DataBlocks[i].UncompressedSize, md.DataBlocks[i].BloomFilterSize} {
+			o := bs.VerifGetScanBuffer(size)
+			full := o[:cap(o)]
+			for j := range full {
+				full[j] = 0xA5
+			}
+			bs.VerifPutScanBuffer(o)
+		}
+	}
 	cum, secCum := 0, roff
 	var allEntries []*rowEntries
 	var blockTerms, ztab []string
@@ -184,10 +253,16 @@ func c17File(c *Ctx, sh *shard, w *tWorld, f tFile, kind string, scen int, cfgDe
 		secCum += b.BloomFilterSize
 		sections = append(sections, seci)
 
-		rowData, err := bs.ReadDataBlockRowData(newProbe(data), &b)
-		if err != nil {
-			fail(fmt.Sprintf("block %d: ReadDataBlockRowData: %v", i, err))
-			return
+		rowData := heldRows[i]
+		// the helper's rows against a decode that does not go through the helper
+		wantRD, decOK := ci, true
+		if b.Compression == bs.CompressionSnappy || b.Compression == bs.CompressionZstd {
+			wantRD, decOK = libDecompress(b.Compression, ci, 1<<24)
+		}
+		if decOK && !bytes.Equal(rowData, wantRD) {
+			c.dist("c17_helper", "retained rows changed")
+			fail(fmt.Sprintf("block %d (%s): the row data ReadDataBlockRowData returned is no longer the block's row data after the other blocks, the filters and unrelated pooled buffers were read (a returned buffer must be safe to retain)", i, b.Compression))
+			rowData = wantRD // judge the file itself on the independent decode
 		}
 		var rowsJSON [][]byte
 		var ents []*rowEntries
@@ -206,17 +281,20 @@ func c17File(c *Ctx, sh *shard, w *tWorld, f tFile, kind string, scen int, cfgDe
 				fail(fmt.Sprintf("block %d holds a row that was never ingested: %q", i, rb))
 				return
 			}
+			if !bytes.Equal(rb, w.json[id]) {
+				fail(fmt.Sprintf("block %d: ReadDataBlockRowData returned a row that differs from the row ingested under its id: %q", i, rb))
+				return
+			}
 			rowsJSON = append(rowsJSON, w.json[id])
-			e, err := walkEntries(w.json[id])
+			e, err := walkEntriesWith(w.json[id], w.walkTok)
 			must(err)
 			ents = append(ents, e)
 		}
 		allEntries = append(allEntries, ents...)
-		if _, err := bs.ReadDataBlockBloomFilters(newProbe(data), b); err != nil {
-			fail(fmt.Sprintf("block %d: ReadDataBlockBloomFilters: %v", i, err))
-			return
-		}
 		want, _ := rebuildFilters(ents, b.BloomFalsePositiveRate)
+		if coqFilters(heldFilters[i]) != coqFilters(&want) {
+			fail(fmt.Sprintf("block %d: the filters ReadDataBlockBloomFilters returned are not the filters of the block's rows (rebuilt independently from the rows ingested)", i))
+		}
 		if b.Compression == bs.CompressionSnappy || b.Compression == bs.CompressionZstd {
 			d, ok := libDecompress(b.Compression, ci, 1<<24)
 			ztab = append(ztab, coqPair(coqStr(ci), coqOptStr(d, ok)))
